@@ -300,6 +300,8 @@ MUST_FIRE += [
 
 MUST_STAY_SILENT = [
     # id, properties to run, edit, exit 2 tolerated?, note
+    ("s35", ["C18"], rep1(S + "f2_algebra.py", "    cols = A.shape[1]\n\n    out = []", "    cols = A.shape[1]\n    if not pivot_cols:\n        return np.identity(cols, dtype=np.int8)\n    out = []"), False, "zero matrix: the whole space, handed out early"),
+    ("s34", ["C18"], rep1(S + "f2_algebra.py", "    return len(rref(A)[1])", "    return int(np.count_nonzero(rref(A)[0].any(axis=1)))"), False, "rank as the number of non-zero rows of the reduced matrix"),
     ("s33", ["C18"], rep1(S + "f2_algebra.py", "    cols = A.shape[1]\n\n    out = []", "    cols = A.shape[1]\n    if len(pivot_cols) == cols:\n        return np.zeros((0, cols), dtype=np.int8)\n    out = []"), False, "early empty basis exactly when every column is a pivot column"),
     ("s32", ["C04", "C17"], rep1(S + "circuit_lookup.py", "        self.depth = int(components[2])", "        self.depth = min(int(components[2]), max(int(components[1]), int(components[2])))"), False, "depth computed, equal to its column on every shipped line"),
     ("s31", ["C18"], rep1(S + "f2_algebra.py", "    while h < m and k < n:\n        found = False\n        i = h\n        while not found and i < m:\n            if A[i, k] == 1:", "    while h <= m - 1 and k < n:\n        found = False\n        i = h\n        while not found and i < m:\n            if A[i, k] == 1:"), False, "cursor bound written as h <= m - 1: the same bound"),
